@@ -220,3 +220,33 @@ Definition no_glue_ok (g : grammar) : bool :=
              | _ => true
              end) (g_nodes g).
 End KwCheck.
+
+(* ---- the complete C21 instance check (also compares the non-terminal nodes) *)
+Definition kind_nonmatch_eqb (k k' : kind) : bool :=
+  match k, k' with
+  | KSeq, KSeq | KChoice, KChoice | KOpt, KOpt | KStar, KStar | KPlus, KPlus | KUnord, KUnord
+  | KAnd, KAnd | KNot, KNot | KEmpty, KEmpty => true
+  | _, _ => false
+  end.
+Definition opt_eqb {A} (f : A -> A -> bool) (a b : option A) : bool :=
+  match a, b with
+  | Some x, Some y => f x y
+  | None, None => true
+  | _, _ => false
+  end.
+Definition node_eqb (a b : node) : bool :=
+  (kind_nonmatch_eqb (n_kind a) (n_kind b) && forall2b Nat.eqb (n_kids a) (n_kids b) &&
+   opt_eqb Nat.eqb (n_sep a) (n_sep b) && Bool.eqb (n_eolterm a) (n_eolterm b) &&
+   str_eqb (n_rule a) (n_rule b) && Bool.eqb (n_root a) (n_root b) &&
+   Bool.eqb (n_suppress a) (n_suppress b) && opt_eqb str_eqb (n_ws a) (n_ws b) &&
+   opt_eqb Bool.eqb (n_skipws a) (n_skipws b))%bool.
+
+Definition kw_case_ok (wordc digitc : N -> bool) (lower : N -> N) (input : list N)
+           (tbl tbl' : list ((nat * nat) * nat)) (g g' : grammar) : bool :=
+  (forall2b (fun nd nd' =>
+               if is_match_kind (n_kind nd)
+               then (Bool.eqb (n_suppress nd') (n_suppress nd) &&
+                     kw_pair_ok wordc digitc lower input tbl tbl' (n_kind nd) (n_kind nd'))%bool
+               else node_eqb nd nd')
+            (g_nodes g) (g_nodes g') &&
+   Nat.eqb (g_top g') (g_top g) && opt_eqb Nat.eqb (g_comments g') (g_comments g))%bool.
